@@ -246,6 +246,7 @@ def _judge(case, dry, obs, plan):
     first_fault_turn = None
     reached = 0
     faulted_turns = []
+    classes_hit = set()
     for t, (spec, o, d) in enumerate(zip(case["turns"], obs.turns, dry.turns)):
         what = f"{what0}, turn {t}"
         # (i) generate returns
@@ -269,12 +270,15 @@ def _judge(case, dry, obs, plan):
                 labels.add("turn-after-fault-compared")
             if not same:
                 stale = _stale_context_signature(cfg, d, o)
+                # signature of C03-F17: after a failed retrieval-rail action the turn ends in the internal-error message
+                # although nothing failed in it (the shipped retrieve_relevant_chunks raises on `$relevant_chunks = None`)
+                chunks_none = bool(v == 1 and "retrieval-rail" in classes_hit and INTERNAL_ERROR in text and not stale)
                 kind = "later-turn-refused-after-fault" if stale else ("later-turn-rails-differ" if _rail_sig(o) != _rail_sig(d) else "later-turn-reply-differs")
                 raise Violation(
                     kind,
                     f"{what} (no fault in this turn, faults hit turn(s) {faulted_turns}): rail trace {_rail_sig(o)} reply {_norm_reply(o)!r}; "
                     f"the fault-free conversation has rail trace {_rail_sig(d)} reply {_norm_reply(d)!r} in this turn"[:900],
-                    _detail(cfg, plan, t, stale_context=stale, faulted_turns=list(faulted_turns)),
+                    _detail(cfg, plan, t, stale_context=stale, internal_error_after_retrieval_fault=chunks_none, faulted_turns=list(faulted_turns)),
                 )
             continue
 
@@ -291,6 +295,7 @@ def _judge(case, dry, obs, plan):
         needs_refusal = False
         for fe in faults:
             cls = _site_class(fe)
+            classes_hit.add(cls)
             labels.add(f"fault-in-{cls}")
             labels.add(f"{ver}-fault-in-{cls}")
             count(f"fault.{ver}.{cls}")
@@ -363,7 +368,7 @@ def _judge(case, dry, obs, plan):
             else:
                 labels.add("reply=rail-refusal")
         else:
-            labels.add("reply-after-dialog-fault=" + ("internal-error" if INTERNAL_ERROR in text else "llm-text" if in_reply else "empty" if not text.strip() else "other"))
+            labels.add("reply-after-non-rail-fault=" + ("internal-error" if INTERNAL_ERROR in text else "llm-text" if in_reply else "empty" if not text.strip() else "other"))
     if reached < len(plan):
         labels.add("second-fault-not-reached" if reached else "fault-not-reached")
         count("plans.with-unreached-site")
@@ -455,4 +460,8 @@ def known(case, violation):
     d = violation.detail or {}
     if violation.kind == "later-turn-refused-after-fault" and d.get("v") == 1 and d.get("stale_context"):
         return "C03-F16"
+    # C03-F17 (Colang 1.0, no knowledge base): a failed retrieval-rail action leaves `$relevant_chunks = None`; the shipped
+    # `retrieve_relevant_chunks` then raises (None + "\n") in every later turn, which is answered with the internal-error message.
+    if violation.kind in ("later-turn-rails-differ", "later-turn-reply-differs") and d.get("v") == 1 and d.get("internal_error_after_retrieval_fault"):
+        return "C03-F17"
     return None
